@@ -412,6 +412,7 @@ fn scenario_pairs() -> Vec<(&'static str, &'static str, &'static str)> {
         ("reuse-position-with-percent", r##"<svg><specs><rect id="t" wh="$s"/></specs><reuse href="#t" s="3" x="10%" y="20"/></svg>"##, r##"<svg><rect wh="3" x="10%" y="20" class="t"/></svg>"##),
         ("template-own-style-kept/shape", r##"<svg><specs><rect id="t" style="fill:red" wh="$s"/></specs><reuse href="#t" s="3" style="stroke:blue"/></svg>"##, r##"<svg><rect style="fill:red; stroke:blue" wh="3" class="t"/></svg>"##),
         ("template-own-style-kept/group", r##"<svg><specs><g id="t" style="opacity:0.5"><rect wh="$s"/></g></specs><reuse href="#t" s="3" style="stroke:blue"/></svg>"##, r##"<svg><g style="opacity:0.5; stroke:blue" class="t"><rect wh="3"/></g></svg>"##),
+        ("relative-placement-of-parameterised-template/h", r##"<svg><specs><rect id="t" wh="$s"/></specs><rect id="o" wh="2"/><reuse href="#t" s="2" xy="#o|h 1"/></svg>"##, r##"<svg><rect id="o" wh="2"/><rect wh="2" xy="#o|h 1" class="t"/></svg>"##),
         ("group-template-local-variables-placed", r##"<svg><specs><g id="dot" r="2" width="5"><circle r="$r" cxy="$c"/><rect wh="$width"/></g></specs><reuse href="#dot" c="0" x="10"/></svg>"##, r##"<svg><g r="2" width="5" transform="translate(10, 0)" class="dot"><circle r="2" cxy="0"/><rect wh="5"/></g></svg>"##),
         ("defaults-apply-to-instance", r##"<svg><defaults><rect rx="2" class="d"/></defaults><specs><rect id="t" wh="$s"/></specs><reuse href="#t" s="3"/></svg>"##, r##"<svg><defaults><rect rx="2" class="d"/></defaults><rect wh="3" class="t"/></svg>"##),
     ]
